@@ -176,11 +176,6 @@ func runGuardedRules(p *Program, id string) ([]*Gen, []string) {
 			errs = append(errs, "contract-stale: guarded "+name+": package not loaded")
 			continue
 		}
-		fn := p.LookupFunc(sp.Pkg.Path(), kv["func"])
-		if fn == nil {
-			errs = append(errs, "contract-stale: guarded "+name+": function "+kv["func"]+" not found")
-			continue
-		}
 		g := NewGen(p, nil, nil)
 		g.Label = "guarded " + name
 		var fns []*ssa.Function
@@ -191,8 +186,28 @@ func runGuardedRules(p *Program, id string) ([]*Gen, []string) {
 				collect(a)
 			}
 		}
-		collect(fn)
+		if kv["func"] == "*" {
+			// every function and method of the package (sorted for stable obligation names)
+			var all []*ssa.Function
+			for f := range p.AllFuncs {
+				if f.Pkg == sp && f.Parent() == nil && f.Blocks != nil && f.Synthetic == "" {
+					all = append(all, f)
+				}
+			}
+			sort.Slice(all, func(i, j int) bool { return fullName(all[i]) < fullName(all[j]) })
+			for _, f := range all {
+				collect(f)
+			}
+		} else {
+			fn := p.LookupFunc(sp.Pkg.Path(), kv["func"])
+			if fn == nil {
+				errs = append(errs, "contract-stale: guarded "+name+": function "+kv["func"]+" not found")
+				continue
+			}
+			collect(fn)
+		}
 		n := 0
+		perFn := map[string]int{}
 		guards := splitList(kv["require"], "&&")
 		for _, f := range fns {
 			for _, b := range f.Blocks {
@@ -254,7 +269,17 @@ func runGuardedRules(p *Program, id string) ([]*Gen, []string) {
 						}
 					}
 					n++
-					o := &Oblig{Name: fmt.Sprintf("%s.%s#guarded:%s.%d", kv["in"], kv["func"], name, n), Kind: "guarded", Goal: "true", Pre: "unsat", AutoSite: true,
+					oname := fmt.Sprintf("%s.%s#guarded:%s.%d", kv["in"], kv["func"], name, n)
+					if kv["func"] == "*" {
+						top := f
+						for top.Parent() != nil {
+							top = top.Parent()
+						}
+						_, short := ContractName(top)
+						perFn[short]++
+						oname = fmt.Sprintf("%s.%s#guarded:%s.%d", kv["in"], short, name, perFn[short])
+					}
+					o := &Oblig{Name: oname, Kind: "guarded", Goal: "true", Pre: "unsat", AutoSite: true,
 						Pos:  strings.TrimPrefix(p.Fset.Position(in.Pos()).String(), p.Repo+"/"),
 						Text: "guarded " + name + ": " + desc + " — " + strings.TrimSpace(d.Text[j+1:])}
 					holds, missing := guardsHold(in, guards)
